@@ -494,6 +494,58 @@ Theorem C13_topology_cell_fan_conforming : forall (P : Type) (O : pops P) (r r' 
 Proof. exact @cell_fan_conforming. Qed.
 Print Assumptions C13_topology_cell_fan_conforming.
 
+(* split_tet_from_face_center, the whole loop over the adjacent cells, on the model's output: every side other than the
+   split one keeps exactly its owners (border stays border, interior stays interior), nothing appears on old vertices,
+   and a conforming mesh of proper tetrahedra (four different vertices, no two cells on the same four vertices) stays so *)
+Theorem C13_topology_face_centre_conforming : forall (P : Type) (O : pops P) (r r' : raw P) (fid A B C : Z),
+  getz (rf r) fid = Ok [A; B; C] -> split_tet_from_face_center O r fid = Ok r' -> WFv r -> NoDup [A; B; C] ->
+  Forall (@NoDup Z) (rc r) ->
+  (forall t, ~ In (nV r) t -> seteqz t [A; B; C] = false -> uocc (rc r') t = uocc (rc r) t) /\
+  (forall t, (0 < uocc (rc r') t)%nat -> (0 < uocc (rc r) t)%nat \/ In (nV r) t) /\
+  (forall t, ~ In (nV r) t -> (uocc (rc r') t <= uocc (rc r) t)%nat) /\
+  (conforming (rc r) -> proper_cells (rc r) -> conforming (rc r') /\ proper_cells (rc r')).
+Proof. exact @face_centre_conforming. Qed.
+Print Assumptions C13_topology_face_centre_conforming.
+
+Theorem C13_topology_cell_fan_proper : forall (P : Type) (O : pops P) (r r' : raw P) (c A B C D : Z),
+  getz (rc r) c = Ok [A; B; C; D] -> split_cell_as_fan O r c = Ok r' -> WFv r -> proper_cells (rc r) -> proper_cells (rc r').
+Proof. exact @cell_fan_proper. Qed.
+Print Assumptions C13_topology_cell_fan_proper.
+
+(* vol_inv: in-range cells of four vertices, faces and cells on different vertices, no two cells on the same four vertices,
+   every triangle a side of at most two cells.  It holds for every documented input and is kept by every operation, hence
+   by every sequence of operations inside one editing block - no guard on the operations or their order. *)
+Theorem C13_accepts_prepared_volume_conforming : forall (P : Type) (V : list P) (C : list (list Z)),
+  Forall (cell_ok (Zlen V)) C -> proper_cells C -> conforming C -> vol_inv (pr (prepare (mkraw V [] [] C))).
+Proof. exact @prepared_volume_inv. Qed.
+Print Assumptions C13_accepts_prepared_volume_conforming.
+
+Theorem C13_topology_volume_step_conforming : forall (P : Type) (O : pops P) (r r' : raw P) (o : vop),
+  vstep O r o = Ok r' -> vol_inv r -> vol_inv r'.
+Proof. exact @vstep_conforming. Qed.
+Print Assumptions C13_topology_volume_step_conforming.
+
+Theorem C13_topology_volume_history_conforming : forall (P : Type) (O : pops P) (ops : list vop) (r r' : raw P),
+  foldM (vstep O) ops r = Ok r' -> vol_inv r -> vol_inv r'.
+Proof. exact @volume_history_conforming. Qed.
+Print Assumptions C13_topology_volume_history_conforming.
+
+(* what the tetrahedral splits do NOT touch: the cells that do not contain the split face (resp. the other cells), the
+   other faces, the edge list *)
+Theorem C13_topology_face_centre_untouched : forall (P : Type) (O : pops P) (r r' : raw P) (fid A B C : Z),
+  getz (rf r) fid = Ok [A; B; C] -> split_tet_from_face_center O r fid = Ok r' ->
+  (forall i cell, getz (rc r) i = Ok cell -> fc_adjacent [A; B; C] cell = false -> getz (rc r') i = Ok cell) /\
+  (forall j, 0 <= j < nF r -> j <> fid -> getz (rf r') j = getz (rf r) j) /\
+  re r' = re r.
+Proof. exact @face_centre_untouched. Qed.
+Print Assumptions C13_topology_face_centre_untouched.
+
+Theorem C13_topology_cell_fan_untouched : forall (P : Type) (O : pops P) (r r' : raw P) (c A B C D : Z),
+  getz (rc r) c = Ok [A; B; C; D] -> split_cell_as_fan O r c = Ok r' ->
+  (forall i, 0 <= i < nC r -> i <> c -> getz (rc r') i = getz (rc r) i) /\ rf r' = rf r /\ re r' = re r.
+Proof. exact @cell_fan_untouched. Qed.
+Print Assumptions C13_topology_cell_fan_untouched.
+
 (* ================================================================== acceptance of every documented input / history *)
 Theorem C13_accepts_prepared_surface : forall (P : Type) (V : list P) (F : list (list Z)),
   input_ok (Zlen V) F -> WF (pr (prepare (mkraw V [] F []))).
